@@ -2,6 +2,7 @@
 # Offline setup: build the Lean project (library, proofs, drivers) and warm the Go build cache.
 set -e
 cd "$(dirname "$0")"
+./check regen || true
 cd lean
 exes=$(ls Drivers/*.lean 2>/dev/null | sed 's#Drivers/\(.*\)\.lean#drv_\1#' | tr 'A-Z' 'a-z')
 lake build CentrifugeVerif $exes
